@@ -37,14 +37,14 @@ def run(ctx):
     consts2 = dict(consts, NHours=2, MaxBuf=2, QCap=3)
     scripts2, ginfo2 = L.generate(ctx, "Gen_c03_hours.cfg", consts2)
     ctx.note("tlc_generation", [ginfo, ginfo2])
-    chosen = L.pick(scripts, 60 if q else 400, 120 if q else 2500, ctx.seed) + []
-    more = L.pick(scripts2, 30 if q else 200, 60 if q else 800, ctx.seed + 1)
+    chosen = L.pick(scripts, 60 if q else 300, 120 if q else 700, ctx.seed) + []
+    more = L.pick(scripts2, 30 if q else 150, 60 if q else 250, ctx.seed + 1)
     allscripts = chosen + more
     for i, s in enumerate(allscripts):
         s["index"] = i
         s["consts"] = dict(s["consts"], Variant=i % 3)   # schema/hour pool slice, see mkBatch/realSig in the driver
     binp = L.build_driver(ctx)
-    tp, results = L.run_driver(ctx, binp, allscripts, 150 if q else 2500, False, "c03")
+    tp, results = L.run_driver(ctx, binp, allscripts, 150 if q else 1000, False, "c03", timeout=3000)
     info = L.judge(ctx, "C03", tp, results, allscripts, "exact")
     ctx.note("real_runs", info)
     ctx.count(evaluations=info["events"],
